@@ -10,12 +10,13 @@ CONSTANTS
   EncChoices = {FALSE, TRUE}
   ByValueMax = 2
   AllowConflicts = FALSE
-  Features = {"psk", "gce", "reinit", "badkp", "storage"}
+  Features = {"psk", "gce", "reinit", "badkp", "storage", "custom"}
   Window = 1024
   Retention = 3
   BurstSizes = {1, 2}
   PskIds = {"k1", "k2"}
   PskValues = {"none", "a", "b"}
+  JitterChoices = {99999}
   Deviations = {"F12", "F14"}
   MaxApps = 30
   Depth = 60
